@@ -68,6 +68,7 @@ def oracle_mgr(case, impl, want="all"):
     objs = {}                   # id -> last known digest
     inflight = []               # object ids (None = unknown) per in-flight Do, in start order
     pend = []                   # ids of objects with a started, not yet run election, in start order
+    streak = {}                 # endpoint key -> failed queries in a row (see the c09 rules)
     clock = 10 ** 9
     for op in f[6:]:
         if op[0] == "P":
@@ -159,9 +160,19 @@ def oracle_mgr(case, impl, want="all"):
                             elapsed, before["iv"], before["t"])
                 if act["t"] == 1 and act["id"] not in pend:
                     pend.append(act["id"])
+            # failures in a row on an endpoint, counted from the history alone: since the election that made it the active
+            # endpoint (OnChange) or its last successful query, whatever the object says its count is
+            for e in ocs:
+                streak[key(e)] = 0
             if kind == "F" and obj is not None:
                 before = objs.get(obj["id"])
                 ok = op[-1] == "o"
+                k_ep = key(obj["ep"])
+                streak[k_ep] = 0 if ok else streak.get(k_ep, 0) + 1
+                if (not ok and streak[k_ep] == thr and before is not None and before["t"] == 0 and obj["t"] != 1
+                        and act is not None and key(act["ep"]) == k_ep):
+                    return ("%d queries in a row have failed on %s since it became the active endpoint / last answered one "
+                            "(error threshold %d) and no election was started (the manager counts %d)" % (thr, obj["ep"], thr, obj["errs"]))
                 if ok and obj["errs"] != 0:
                     return "a successful query did not reset the consecutive-error count"
                 if before is not None and not ok:
